@@ -16,6 +16,7 @@ class WBS:
         :param kwargs: any additional WBS arguments
         """
         self.__root = Task(EMPTY_TASK_ID, **kwargs)
+        self.__root._make_hidden_root()
         self.__root._attach(self)
 
         if tasks:
